@@ -39,6 +39,17 @@ pub enum VerifEvent {
     AnalyzeUnsolvable(u32),
     /// `decide` was called while this many clauses were allocated.
     Decide(u32),
+    /// `propagate` was called (and not cancelled at once) for this level
+    /// while this many clauses were allocated.
+    Propagate {
+        /// The level at which assignments are made.
+        level: u32,
+        /// The number of clauses allocated.
+        clauses: u32,
+    },
+    /// The call of `propagate` returned: without a conflict, or with this
+    /// clause as the conflict.
+    PropagateResult(Option<u32>),
 }
 
 /// A unit of work of the encoder (`u32::MAX` is the root).
@@ -146,4 +157,7 @@ pub struct VerifDump {
     pub trail: Vec<(u32, bool, u32, u32)>,
     /// The clauses registered as negative assertions, in registration order.
     pub negative_assertions: Vec<u32>,
+    /// The literals every clause watched when it was allocated, as
+    /// `(variable, satisfying value)`; `None` for clauses without watches.
+    pub initial_watches: Vec<Option<[(u32, bool); 2]>>,
 }
